@@ -190,7 +190,11 @@ Q_C13 == {[BaseQ EXCEPT !.items = <<E(Fa(1)), E(Fa(2))>>],
           [BaseQ EXCEPT !.kind = "update", !.assign = << <<2, <<"cat", Fa(1), L(120)>> >> >>],
           [BaseQ EXCEPT !.items = <<E(P(Fa(1)))>>],
           [BaseQ EXCEPT !.items = <<E(Fa(1))>>, !.order = <<Fa(1)>>, !.kind = "update", !.assign = << <<1, L(120)>> >>],
-          [BaseQ EXCEPT !.items = <<E(Fa(1))>>, !.where = <<"eq", Fa(1), L(97)>>, !.mistake = "where_assign"]}
+          [BaseQ EXCEPT !.items = <<E(Fa(1))>>, !.where = <<"eq", Fa(1), L(97)>>, !.mistake = "where_assign"],
+          \* TOP / LIMIT bound the OUTPUT (after dedup / aggregation), not the input scan: a front-end must not push them into its data source
+          [BaseQ EXCEPT !.items = <<E(Fa(2))>>, !.distinct = "uniq", !.hastop = TRUE, !.top = 2],
+          [BaseQ EXCEPT !.items = <<E(Fa(2))>>, !.distinct = "count", !.hastop = TRUE, !.top = 1],
+          [BaseQ EXCEPT !.items = <<Agg("COUNT", <<"int", 1>>)>>, !.hastop = TRUE, !.top = 1]}
 Q_C13join == {[BaseQ EXCEPT !.items = <<E(Fa(1)), E(Fb(2))>>, !.join = j, !.jkeys = << <<1, 1>> >>] : j \in {"inner", "left", "strict"}}
              \cup {[BaseQ EXCEPT !.items = << <<"star">> >>, !.join = "inner", !.jkeys = << <<2, 1>> >>, !.order = <<Fb(2)>>],
                    [BaseQ EXCEPT !.kind = "update", !.assign = << <<2, Fb(2)>> >>, !.join = "left", !.jkeys = << <<1, 1>> >>]}
